@@ -151,6 +151,18 @@ static std::vector<Plan> c07_fixed(int tier) {
         p.ops.push_back(Op("send", 0, 50)); p.ops.push_back(Op("send", 1, 50));
         v.push_back(p);
     } }
+    // TLS 1.1 / 1.2 ECDHE-RSA: every pair of non-empty subsets of {P-256, P-384, P-521} as client and server curve lists (and "no list")
+    {
+        static const uint16_t C3[] = { 23, 24, 25 };
+        for (int sc = 0; sc < 8; sc++) { for (int ss = 0; ss < 8; ss++) { for (int ver12 = 0; ver12 < 2; ver12++) {
+            Plan p; p.seed = 77000 + (uint64_t) ((sc * 8 + ss) * 2 + ver12);
+            p.cfg["dtls"] = 0; p.cfg["vers_c"] = ver12 ? 2 : 1; p.cfg["vers_s"] = ver12 ? 2 : 1; p.cfg["sid_kind"] = KK_RSA2048; p.cfg["suite"] = TLS_ECDHE_RSA_WITH_AES_128_CBC_SHA;
+            int k = 0; for (int i = 0; i < 3; i++) { if (sc >> i & 1) { p.cfg["grp_c" + std::to_string(k++)] = C3[(i + sc) % 3]; } }
+            k = 0; for (int i = 0; i < 3; i++) { if (ss >> i & 1) { p.cfg["grp_s" + std::to_string(k++)] = C3[(i + ss) % 3]; } }
+            p.ops.push_back(Op("send", 0, 50)); p.ops.push_back(Op("send", 1, 50));
+            v.push_back(p);
+        } } }
+    }
     // TLS 1.2 ECDHE-RSA: per-side signature algorithm lists over rsa_pkcs1_sha256/384/512 (the client's always contains sha256: the test
     // certificates are sha256WithRSA and the TLS 1.2 list also governs certificate signatures)
     {
@@ -252,12 +264,14 @@ static RunResult c07_exec(const Plan &p) {
         if (!w.setup(pc)) { res.harness_error = true; res.detail = "setup rc=" + std::to_string(w.setup_rc); }
         else {
             bool rewritten = false; int seen_ch = 0;
+            int ske_curve = -1;      // TLS <= 1.2 ServerKeyExchange (ECDHE): the named curve the server chose, read off the wire
             int ske_sigalg = -1;     // TLS 1.2 ServerKeyExchange (ECDHE): the SignatureAndHashAlgorithm the server signed with, read off the wire
             w.filter = [&](Record &r, std::vector<Bytes> &out) {
                 Bytes raw = r.raw;
                 size_t hh = dtls ? 12 : 4;
                 if (r.type == 22 && r.dir == DIR_S2C && (dtls ? r.epoch == 0 : true) && r.body_len() > hh + 8 && r.raw[r.hdr] == 12 && ske_sigalg < 0) {
                     const unsigned char *b = r.raw.data() + r.hdr + hh; size_t n = r.body_len() - hh;
+                    if (b[0] == 3) { ske_curve = b[1] << 8 | b[2]; }
                     if (b[0] == 3 && n > 4 + (size_t) b[3] + 2) { size_t o = 4 + (size_t) b[3]; ske_sigalg = b[o] << 8 | b[o + 1]; }   // named_curve ECParameters + point, then the algorithm pair
                 }
                 bool prot = dtls ? r.epoch > 0 : false;
@@ -354,6 +368,14 @@ static RunResult c07_exec(const Plan &p) {
                                 if (!sig_enabled(pc.sigalgs_c, sc2)) { res.violate("sigalg_not_mutual", "client_signed_with_one_it_never_enabled", "the client's CertificateVerify uses signature scheme " + std::to_string(sc2) + ", which is not in the client's own list " + sl); }
                                 else if (!sig_enabled(pc.sigalgs_s, sc2)) { res.violate("sigalg_not_mutual", "server_accepted_one_it_never_enabled", "the client's CertificateVerify uses signature scheme " + std::to_string(sc2) + ", which the server did not enable " + sl); }
                             }
+                        }
+                        if (!res.violation && nvc != v_tls_1_3 && ske_curve >= 0) {
+                            // TLS <= 1.2 ECDHE: the curve of the ServerKeyExchange is one both sessions enabled (and so one the client offered)
+                            auto en = [](const std::vector<uint16_t> &l, int g) { bool nist = false; for (auto x : l) { if (x >= 23 && x <= 25) { nist = true; } } if (!nist) { return g == 23 || g == 24 || g == 25; } /* no TLS <= 1.2 curve restriction configured */ for (auto x : l) { if (x == g) { return true; } } return false; };
+                            std::string gl = "c["; for (auto x : pc.groups_c) { gl += std::to_string(x) + " "; } gl += "] s["; for (auto x : pc.groups_s) { gl += std::to_string(x) + " "; } gl += "]";
+                            res.count("group12." + std::to_string(ske_curve));
+                            if (!en(pc.groups_c, ske_curve)) { res.violate("group_not_mutual", "tls<=1.2_client_never_enabled", "ECDHE ran on curve " + std::to_string(ske_curve) + ", which the client did not enable / offer " + gl); }
+                            else if (!en(pc.groups_s, ske_curve)) { res.violate("group_not_mutual", "tls<=1.2_server_never_enabled", "ECDHE ran on curve " + std::to_string(ske_curve) + ", which the server session did not enable " + gl); }
                         }
                         if (!res.violation && nvc == v_tls_1_2 && ske_sigalg >= 0) {
                             auto sig_enabled12 = [](const std::vector<uint16_t> &l, int a) { if (l.empty()) { return true; } for (auto x : l) { if (x == a) { return true; } } return false; };
